@@ -79,7 +79,7 @@ class MixedNormalAggregator(Aggregator):
         y = {k: v for k, v in y_dict.items()}
 
         self._np = np
-        if all(isinstance(yi, np.ma.MaskedArray) for yi in y["loc"]) and all(
+        if any(isinstance(yi, np.ma.MaskedArray) for yi in y["loc"]) or any(
             isinstance(yi, np.ma.MaskedArray) for yi in y["scale"]
         ):
             self._np = np.ma
